@@ -78,6 +78,8 @@ type c20Entry struct {
 	Msg     int
 	Snap    c20Msg
 	Ptr     uintptr
+	kept    *Message // the handler keeps what it was given ...
+	atExit  c20Msg   // ... as it looked when the handler returned
 }
 
 func c20Run(tb rapid.TB, c c20Case) {
@@ -98,10 +100,11 @@ func c20Run(tb rapid.TB, c c20Case) {
 			if len(m.Payload) > 0 {
 				ptr = uintptr(unsafe.Pointer(&m.Payload[0]))
 			}
-			mu.Lock()
-			entries = append(entries, c20Entry{Handler: i, Msg: cur, Snap: c20Snap(m), Ptr: ptr})
-			mu.Unlock()
+			snap := c20Snap(m)
 			c20Mutate(m, h.Mut)
+			mu.Lock()
+			entries = append(entries, c20Entry{Handler: i, Msg: cur, Snap: snap, Ptr: ptr, kept: m, atExit: c20Snap(m)})
+			mu.Unlock()
 		})
 	}
 
@@ -197,6 +200,15 @@ func c20Run(tb rapid.TB, c c20Case) {
 			}
 		}
 	}
+	// a handler may keep its copy: dispatching later messages must not change what earlier handlers kept
+	mu.Lock()
+	for _, e := range entries {
+		if e.kept != nil && !c20Eq(c20Snap(e.kept), e.atExit) {
+			mu.Unlock()
+			vFailf(tb, nil, "the copy that handler %d kept of message %d changed after the handler had returned: %v -> %v (a later dispatch re-used it)", e.Handler, e.Msg, e.atExit, c20Snap(e.kept))
+		}
+	}
+	mu.Unlock()
 	nontrivial := mutating > 0 || (c.Mode == "async" && len(c.Msgs[0].Payload) > 0)
 	vCount("C20", nontrivial, vJSON(c), []string{"mode:" + c.Mode, fmt.Sprintf("msgs:%d", len(c.Msgs))}, func() interface{} { return c })
 	_ = time.Now
